@@ -29,10 +29,11 @@ type knownEntry struct {
 }
 
 type mutantSpec struct {
-	File string `json:"file"`
-	Old  string `json:"old"`
-	New  string `json:"new"`
-	Nth  int    `json:"nth"`
+	File  string `json:"file"`
+	Old   string `json:"old"`
+	New   string `json:"new"`
+	Nth   int    `json:"nth"`
+	Patch string `json:"patch,omitempty"` // unified diff file to apply in memory instead of Old/New
 }
 
 type runResult struct {
@@ -110,6 +111,19 @@ func analyse(repo, prop, tier, mutFile string) *runResult {
 			res.LoadErr = err.Error()
 			return res
 		}
+		if m.Patch != "" {
+			ov, err := applyPatchInMemory(repo, m.Patch)
+			if err != nil {
+				res.Stale = true
+				return res
+			}
+			overlay = ov
+		}
+	}
+	if mutFile != "" && overlay == nil {
+		raw, _ := os.ReadFile(mutFile)
+		var m mutantSpec
+		json.Unmarshal(raw, &m)
 		path := filepath.Join(repo, m.File)
 		src, err := os.ReadFile(path)
 		if err != nil {
@@ -172,8 +186,35 @@ type mutantOutcome struct {
 	Detail string `json:"detail,omitempty"`
 }
 
+// seededMutants turns the committed seeded changes that this property's check is recorded to catch into self-test mutants.
+func seededMutants(prop string) []rules.Mutant {
+	var out []rules.Mutant
+	dirs, _ := filepath.Glob("/verif/seeded/*")
+	sort.Strings(dirs)
+	for _, d := range dirs {
+		raw, err := os.ReadFile(filepath.Join(d, "meta.json"))
+		if err != nil {
+			continue
+		}
+		var meta struct {
+			DetectedBy map[string][]string `json:"detected_by"`
+		}
+		if json.Unmarshal(raw, &meta) != nil {
+			continue
+		}
+		rs := meta.DetectedBy[prop]
+		if len(rs) == 0 {
+			continue
+		}
+		out = append(out, rules.Mutant{Rule: strings.Join(rs, ","), Name: "seeded/" + filepath.Base(d), File: filepath.Join(d, "patch.diff")})
+	}
+	return out
+}
+
 func runMutants(repo, prop string, seed int) []mutantOutcome {
 	ms := rules.MutantsFor(prop)
+	nHand := len(ms)
+	ms = append(ms, seededMutants(prop)...)
 	if len(ms) == 0 {
 		return nil
 	}
@@ -201,7 +242,11 @@ func runMutants(repo, prop string, seed int) []mutantOutcome {
 			defer func() { <-sem }()
 			m := ms[i]
 			o := mutantOutcome{Name: m.Name, Rule: m.Rule}
-			spec, _ := json.Marshal(mutantSpec{File: m.File, Old: m.Old, New: m.New, Nth: m.Nth})
+			sp := mutantSpec{File: m.File, Old: m.Old, New: m.New, Nth: m.Nth}
+			if i >= nHand {
+				sp = mutantSpec{Patch: m.File}
+			}
+			spec, _ := json.Marshal(sp)
 			f := filepath.Join(dir, fmt.Sprintf("m%d.json", i))
 			os.WriteFile(f, spec, 0o644)
 			cmd := exec.Command(exe, "-property", prop, "-repo", repo, "-mutant", f)
@@ -220,7 +265,24 @@ func runMutants(repo, prop string, seed int) []mutantOutcome {
 				o.Result, o.Detail = "error", r.LoadErr
 			default:
 				o.Result = "survived"
+				ruleMatch := func(r string) bool {
+					for _, x := range strings.Split(m.Rule, ",") {
+						if x == r {
+							return true
+						}
+					}
+					return false
+				}
 				for _, ob := range r.Obs {
+					if ruleMatch(ob.Rule) && (ob.Status == rules.Violated || ob.Status == rules.Undecided) && strings.Contains(ob.Key, m.Expect) {
+						o.Result, o.Detail = "killed", ob.Key+" at "+ob.Pos
+						break
+					}
+				}
+				for _, ob := range r.Obs {
+					if o.Result == "killed" {
+						break
+					}
 					if ob.Rule == m.Rule && ob.Status == rules.Violated && strings.Contains(ob.Key, m.Expect) {
 						o.Result, o.Detail = "killed", ob.Key+" at "+ob.Pos
 						break
@@ -420,4 +482,94 @@ func keyFn(key string) string {
 		return rest
 	}
 	return ""
+}
+
+// applyPatchInMemory applies a unified diff (as produced by git diff) to the files under repo and returns an overlay.
+func applyPatchInMemory(repo, patchFile string) (map[string][]byte, error) {
+	raw, err := os.ReadFile(patchFile)
+	if err != nil {
+		return nil, err
+	}
+	lines := strings.Split(string(raw), "\n")
+	overlay := map[string][]byte{}
+	var cur string
+	var content []string
+	flush := func() {
+		if cur != "" {
+			overlay[filepath.Join(repo, cur)] = []byte(strings.Join(content, "\n"))
+		}
+	}
+	i := 0
+	for i < len(lines) {
+		l := lines[i]
+		switch {
+		case strings.HasPrefix(l, "+++ "):
+			flush()
+			name := strings.TrimPrefix(l, "+++ ")
+			name = strings.TrimPrefix(name, "b/")
+			if name == "/dev/null" {
+				cur = ""
+				i++
+				continue
+			}
+			cur = name
+			src, err := os.ReadFile(filepath.Join(repo, cur))
+			if err != nil {
+				src = nil // new file
+			}
+			content = strings.Split(string(src), "\n")
+			i++
+		case strings.HasPrefix(l, "@@") && cur != "":
+			// collect hunk
+			var oldL, newL []string
+			i++
+			for i < len(lines) && !strings.HasPrefix(lines[i], "@@") && !strings.HasPrefix(lines[i], "diff ") && !strings.HasPrefix(lines[i], "--- ") {
+				h := lines[i]
+				switch {
+				case strings.HasPrefix(h, "+"):
+					newL = append(newL, h[1:])
+				case strings.HasPrefix(h, "-"):
+					oldL = append(oldL, h[1:])
+				case strings.HasPrefix(h, " "):
+					oldL = append(oldL, h[1:])
+					newL = append(newL, h[1:])
+				case h == "":
+					if i == len(lines)-1 {
+						// trailing newline of the patch file
+					} else {
+						oldL = append(oldL, "")
+						newL = append(newL, "")
+					}
+				case strings.HasPrefix(h, "\\"):
+				}
+				i++
+			}
+			// locate oldL in content (must be unique)
+			at, n := -1, 0
+			for p := 0; p+len(oldL) <= len(content); p++ {
+				match := true
+				for q := range oldL {
+					if content[p+q] != oldL[q] {
+						match = false
+						break
+					}
+				}
+				if match {
+					at = p
+					n++
+				}
+			}
+			if n != 1 {
+				return nil, fmt.Errorf("hunk does not apply uniquely to %s (%d matches)", cur, n)
+			}
+			content = append(append(append([]string{}, content[:at]...), newL...), content[at+len(oldL):]...)
+		default:
+			i++
+		}
+	}
+	flush()
+	if len(overlay) == 0 {
+		return nil, fmt.Errorf("empty patch")
+	}
+	return overlay, nil
 }
